@@ -76,8 +76,12 @@ def gen_program(rng, prop, tier, run_index):
                   'dp0': (rng.normal(size=families.M) * float(10.0 ** rng.uniform(-2, 0))).tolist() if k > 0 or rng.random() < 0.5 else None,
                   'lam0': str(rng.choice(['zero', 'random', 'keep'])), 'lamseed': int(rng.integers(0, 2**31)),
                   'kappa0': float(10.0 ** rng.uniform(-1, 2)) if rng.random() < 0.6 else None}
-            if rng.random() < 0.5:
-                op['sub'] = {'tol': float(al.get('tol', 1e-8)) * float(rng.choice([1.0, 0.1]))}
+            if rng.random() < 0.6:
+                op['sub'] = {'tol': float(al.get('tol', 1e-8)) * float(rng.choice([1.0, 0.1, 10.0, 100.0]))}
+            if k > 0 and rng.random() < 0.35:
+                # re-solve from the converged point with the multipliers kept and a tiny parameter change
+                op.update(lam0='keep', kappa0=None, warm=bool(rng.random() < 0.5),
+                          dp0=(rng.normal(size=families.M) * 1e-7).tolist() if rng.random() < 0.7 else None)
             if fault_mode:
                 r2 = rng.random()
                 if r2 < 0.3:
@@ -407,6 +411,15 @@ class App:
         b3 = np.maximum(lam, k0 * np.abs(c)) * tol / ((2 - np.sqrt(2)) * k0) * (1 + 1e-6) + 1e3 * core.EPS * np.abs(lam) * cmag
         ctx.require(np.all(comp <= b3), 'C04', 'kkt/complementarity',
                     lambda: 'lam_i c_i = %.6g exceeds bound %.6g' % (comp[int(np.argmax(comp - b3))], b3[int(np.argmax(comp - b3))]), sig=sig)
+        # the solver's own stated criterion, re-evaluated independently: |[grad_x L_A ; FB(kappa0 c, lam)]| < tol
+        gLA = g - J.T @ np.maximum(lam - kap * c, 0.0)
+        ck = k0 * c
+        fb = np.sqrt(ck * ck + lam * lam) - ck - lam
+        resn = float(np.sqrt(gLA @ gLA + fb @ fb))
+        rslack = 1e3 * core.EPS * (lagmag + np.linalg.norm(np.abs(J).T @ (kap * cmag)) + np.linalg.norm(k0 * cmag + np.abs(lam)))
+        ctx.require(resn <= tol * (1 + 1e-6) + rslack, 'C04', 'kkt/termination_residual',
+                    lambda: 'norm of [Lagrangian gradient; Fischer-Burmeister residual] at the returned point is %.6g, requested tolerance %.6g'
+                    % (resn, tol), sig=sig)
         # --- convex clause
         cfg = self.cfg
         if cfg['family'] != 'Qc' or any(t == 'nl' for t in cfg['ctypes']):
@@ -561,7 +574,16 @@ class App:
         comp = np.abs(lam * c)
         b3 = np.maximum(lam, k0 * np.abs(c)) * tol / ((2 - np.sqrt(2)) * k0) * (1 + 1e-6) + 1e-300
         ctx.require(np.all(comp <= b3), 'C04', 'kkt/complementarity',
-                    lambda: 'bound front end: lam_i x_i = %.6g exceeds %.6g' % (comp.max(), b3.max()), sig=sig)
+                    lambda: 'bound front end: lam_i x_i = %.6g exceeds %.6g' % (comp[int(np.argmax(comp - b3))], b3[int(np.argmax(comp - b3))]), sig=sig)
+        gLA = g.copy()
+        gLA[idx] -= np.maximum(lam - kap * c, 0.0)
+        ck = k0 * c
+        fb = np.sqrt(ck * ck + lam * lam) - ck - lam
+        resn = float(np.sqrt(gLA @ gLA + fb @ fb))
+        rslack = 1e3 * core.EPS * (np.linalg.norm(ev.grad_mag(xr, pnew) / S) + np.linalg.norm(kap * np.abs(c) + np.abs(lam)))
+        ctx.require(resn <= tol * (1 + 1e-6) + rslack, 'C04', 'kkt/termination_residual',
+                    lambda: 'bound front end: norm of [Lagrangian gradient; Fischer-Burmeister residual] at the returned point is %.6g, requested tolerance %.6g'
+                    % (resn, tol), sig=sig)
         ctx.label('bound:ok')
 
 
@@ -581,4 +603,5 @@ def run_program(program, ctx):
 
 
 def cleanup():
-    seams.uninstall()
+    from sim import solver_sim
+    solver_sim.cleanup()
